@@ -305,8 +305,16 @@ def _counter_while(init, loop, rest):
     if not isinstance(core, (ast.Name, ast.Constant)):
         return None
     last = loop.body[-1]
-    if not (isinstance(last, ast.AugAssign) and isinstance(last.op, ast.Add) and isinstance(last.target, ast.Name) and last.target.id == j
-            and isinstance(last.value, ast.Constant) and last.value.value == 1 and type(last.value.value) is int):
+    def _one(e):
+        return isinstance(e, ast.Constant) and type(e.value) is int and e.value == 1
+
+    def _isj(e):
+        return isinstance(e, ast.Name) and e.id == j
+    aug = isinstance(last, ast.AugAssign) and isinstance(last.op, ast.Add) and _isj(last.target) and _one(last.value)
+    # `j = j + 1` / `j = 1 + j` is the same step (the thorough tier's rewriting T6 spells it that way)
+    plain = isinstance(last, ast.Assign) and len(last.targets) == 1 and _isj(last.targets[0]) and isinstance(last.value, ast.BinOp) \
+        and isinstance(last.value.op, ast.Add) and ((_isj(last.value.left) and _one(last.value.right)) or (_one(last.value.left) and _isj(last.value.right)))
+    if not (aug or plain):
         return None
     body = loop.body[:-1]
     stored = {n.id for b in body for n in ast.walk(b) if isinstance(n, ast.Name) and isinstance(n.ctx, (ast.Store, ast.Del))}
